@@ -4,12 +4,12 @@ import random
 ID = "C18"
 LEVEL = "exploration"
 RULE = ("cases: (A-activity list, B, activity amounts): O_B = solutions / parse results of spec B in a fresh process; O'_B = the same after other spec objects "
-        "A were created, fuzzed (long enough to trigger the adaptive tuner), parsed in the same process (B sets random_seed itself). Event logs are compared "
+        "A were created, fuzzed (long enough to trigger the adaptive tuner), parsed in the same process (B sets random_seed itself); protocol-mode pairs (A and B both run in IO mode against party classes of their own, with equal or different party names; compared: B's message sequence). Event logs are compared "
         "byte for byte; the global-limit trace (nodes.MAX_REPETITIONS at B's start/end) is recorded. On divergence a counterfactual attribution re-runs the "
         "pair with the suspected global reset to its import-time value before B; if the divergence disappears it is attributed to that mechanism, "
         "otherwise it is a fresh violation. Non-trivial: A performed >= 1 generation or parse before B; distinct by (A, B, activity).")
 TIMEOUTS = {"quick": (170, 420), "thorough": (400, 3000)}
-MIN = {"quick": {"cases": 70, "nontrivial": 60, "observed": {"pairs": 70, "pairs_with_tuner_growth": 8}},
+MIN = {"quick": {"cases": 70, "nontrivial": 60, "observed": {"pairs": 70, "pairs_with_tuner_growth": 8, "protocol_pairs_with_messages": 10}},
        "thorough": {"cases": 400, "nontrivial": 300, "observed": {"pairs": 400}}}
 ASSUMPTIONS = ["B passes random_seed itself, so A's consumption of the global RNG is not an influence the statement forbids"]
 NEED_CPP = True
@@ -33,10 +33,31 @@ B_SPECS = {
 }
 
 
+def io_spec(tag, rounds, names=("Fuzzer", "Extern"), reply_digit=7):
+    """a request/response protocol spec whose parties live in the spec: `names[0]` is fandango's side, `names[1]` the peer that answers"""
+    me, peer = names
+    start = "".join(f"<{me}:{peer}:req{tag}{i}><{peer}:{me}:resp{tag}{i}>" for i in range(rounds))
+    rules = "".join(f"<req{tag}{i}> ::= 'REQ-{tag}{i}\\n'\n<resp{tag}{i}> ::= 'RESP-{tag}{i} ' <digit> '\\n'\n" for i in range(rounds))
+    answers = "".join(f"        if str(message) == 'REQ-{tag}{i}\\n':\n            self.receive('RESP-{tag}{i} {reply_digit}\\n', '{peer}')\n" for i in range(rounds))
+    return (f"<start> ::= {start}\n{rules}\nclass {me}(FandangoParty):\n    def __init__(self):\n        super().__init__(connection_mode=ConnectionMode.OPEN)\n\n"
+            f"    def send(self, message: DerivationTree, recipient: str):\n{answers}\nclass {peer}(FandangoParty):\n    def __init__(self):\n"
+            f"        super().__init__(connection_mode=ConnectionMode.EXTERNAL)\n")
+
+
 def cases(tier, seed):
     rng = random.Random(18000 + seed)
     n = 96 if tier == "quick" else 900
     out = []
+    # protocol-mode pairs: the party registry, the receive queue and the IO singleton belong to one spec object
+    for i in range(14 if tier == "quick" else 120):
+        same_names = i % 3 != 2
+        a_names = ("Fuzzer", "Extern") if same_names else ("Client", "Server")
+        pre = [{"spec": io_spec("A", rng.choice([1, 2, 3]), a_names, rng.choice([3, 5])), "name": "io-A" + ("" if same_names else "-other-names"), "io": True,
+                "use_stdlib": True, "random_seed": rng.randrange(1000), "runs": rng.choice([1, 2])} for _ in range(rng.choice([1, 1, 2]))]
+        if rng.random() < 0.3:
+            pre.append({"spec": A_SPECS["easy"], "name": "easy", "settings": {"population_size": 8, "max_generations": 2, "desired_solutions": 3}, "random_seed": 1, "fuzz": True, "parse_inputs": []})
+        bcfg = {"spec": io_spec("B", rng.choice([1, 2]), ("Fuzzer", "Extern"), 7), "io": True, "use_stdlib": True, "random_seed": rng.randrange(1000), "runs": rng.choice([1, 2])}
+        out.append({"key": f"{'+'.join(p['name'] for p in pre)}->io-B-{i}", "pre": pre, "b": bcfg, "bname": "io-B"})
     an, bn = list(A_SPECS), list(B_SPECS)
     for i in range(n):
         k = rng.choice([1, 1, 2, 3])
@@ -51,6 +72,10 @@ def cases(tier, seed):
         spec, words = B_SPECS[b]
         bcfg = {"spec": spec, "settings": {"population_size": rng.choice([6, 12]), "max_generations": rng.choice([2, 4]), "desired_solutions": rng.choice([6, 12])},
                 "random_seed": rng.randrange(1000), "parse_inputs": words, "fuzz": b != "parse-only"}
+        if rng.random() < 0.5:
+            # the other spec objects are asked to parse the very inputs B will parse: nothing they remember may answer B
+            for p_ in pre:
+                p_["parse_inputs"] = list(words)
         out.append({"key": f"{'+'.join(p['name'] for p in pre)}->{b}-{i}", "pre": pre, "b": bcfg, "bname": b})
     return out
 
@@ -96,7 +121,11 @@ def run_case(c):
             mech = "max-repetitions-global-raised"
         violations.append({"what": what, "mech": mech, "cfg": after})
     stats["evaluations"] = stats["pairs"]
-    nsol = sum(len(e[2]) for e in a2 if e[1] == "solutions")
+    if c["bname"] == "io-B":
+        stats["protocol_pairs"] += 1
+        if any(e[1] == "io-run" and e[2] and e[2][0] for e in a2):
+            stats["protocol_pairs_with_messages"] += 1
+    nsol = sum(len(e[2]) for e in a2 if e[1] in ("solutions", "io-run"))
     res = {"status": "violation" if violations else "ok", "violations": violations, "stats": dict(stats), "nontrivial": True, "distinct_key": c["key"]}
     if hash(c["key"]) % 6 == 0 or violations:
         res["sample"] = {"A": [p["name"] for p in c["pre"]], "B": c["bname"], "solutions_of_B_alone": nsol, "trace_alone": tr_a, "trace_after": tr_b}
